@@ -64,8 +64,11 @@ def make_config(cls: str, params: dict):
             # a deterministic third of the BOCD configurations set the data variance through the model's public, validated setter AFTER construction
             # (the configured data variance is whatever the model object says when the detector copies it - anything derived from it at construction must follow)
             model = GaussianUnknownMean(prior_mean=pm, prior_var=pv)
-            model.data_var = dv
-            BOCD_VIA_SETTER[0] += 1
+            try:
+                model.data_var = dv
+                BOCD_VIA_SETTER[0] += 1
+            except AttributeError:      # a model whose data variance can only be given at construction
+                model = GaussianUnknownMean(prior_mean=pm, prior_var=pv, data_var=dv)
         else:
             model = GaussianUnknownMean(prior_mean=pm, prior_var=pv, data_var=dv)
         return cd.BOCDConfig(model=model, **p)
